@@ -79,7 +79,7 @@ def rand_part(rng, node, label_p=0.2):
                 ok = False
         if ok:
             if p["p"] != "prim" and rng.random() < label_p:
-                p["label"] = rng.choice(["lbl", "A label", "x"])
+                p["label"] = rng.choice(["lbl", "A label", "x", "", "0"])
             return p
     return {"p": "mol"}
 
@@ -108,7 +108,7 @@ def strata(tier):
         if part["p"] == "prim":
             continue
         for j in range(n):
-            for lab in (None, "lbl"):
+            for lab in (None, "lbl", ""):
                 p = dict(part)
                 if lab:
                     p["label"] = lab
